@@ -417,7 +417,10 @@ pub fn evaluate_single(cfg: &RunCfg, rec: &RunRecord) -> (Vec<Finding>, Facts) {
     }
 
     // ---------------------------------------------------------------- C03: chunk contract
-    if !has_skip && !has_panic {
+    // (also in histories with skip_to_end: a chunk that is returned is a whole chunk; a skip by
+    // another thread in the middle of a chunk pull must not cut it short - "for every
+    // interleaving", and C06: pulls in flight deliver the positions they had reserved)
+    if !has_panic {
         for (ci, c) in calls.iter().enumerate() {
             if let Res::Chunk {
                 begin,
